@@ -79,6 +79,9 @@ var schedAssumptions = append([]string{
 }, commonAssumptions...)
 
 var specs = []spec{
+	{ID: "C20", Pkg: ".", Level: "model_checking", Instrument: true, RacePass: true, Procs: 1,
+		Rule:        "all interleavings with at most b deviations (preemptions / non-default select preferences; b=3 quick, 5 thorough, unbounded for the smallest scenarios; points at every mutex acquire/release, channel close, select) of a producer (k pushes, waitUntilSizeIsBelow(n) after each), a consumer (m pulls) and an optional canceller on the real clientSegmentQueue; distinct = distinct (scenario, final observation) pairs",
+		Assumptions: schedAssumptions},
 	{ID: "C17", Pkg: "pkg/storage", Level: "model_checking", Procs: 8,
 		Rule: "explicit-state BFS over storage operation sequences (NewPart, Write, Seek, Finalize, Size, open/read readers with several buffer sizes, Remove) applied to the real RAM and disk back ends and a [][]byte model; a state is the exact observable state (part contents, writer position, finalized/removed flags, open readers with offsets); distinct = distinct state keys",
 		Assumptions: append([]string{"alphabet restricted to the documented usage: a part is written through one Writer while it is the last allocated part; seeks stay within written bytes"}, commonAssumptions...)},
